@@ -356,6 +356,32 @@ func CheckC03(k *sim.Kernel, ar *AdmRun) {
 			nontrivial = true
 		}
 	}
+	// ---- ... nor from a departed one: a consumer that asked to join after an input's departure was complete (lal had
+	// closed the connection and the connection's goroutine had released its last mutex) gets nothing of that input
+	for i, a := range ar.Actors {
+		if a.Sub == nil {
+			continue
+		}
+		joinSent := a.Sub.JoinSentStep()
+		if joinSent < 0 {
+			continue
+		}
+		dead := map[int]bool{}
+		for _, b := range ar.Actors {
+			if b.Pub == nil || b.Pub.Conn == nil || b.Attempt == nil || !b.Attempt.Accepted || b.Plan.Stream != a.Plan.Stream {
+				continue
+			}
+			if b.Pub.ClosedStep >= 0 && b.Pub.ClosedStep < joinSent && b.Pub.Conn.Idle2() && b.Pub.Conn.LastUnlockStep() < joinSent {
+				dead[b.Attempt.Inc] = true
+			}
+		}
+		for j, it := range consItems(a.Sub) {
+			inc, _, _, ok := media.ParseID(it.Payload)
+			if ok && dead[inc] {
+				k.Violate("C03.departed-media-forwarded", "sub%d asked to join after input incarnation %d had left, yet item #%d %s comes from it", i, inc, j, describe(&it))
+			}
+		}
+	}
 	// ---- the accepted inputs' delivery is undisturbed by foreign events
 	for i, a := range ar.Actors {
 		if a.Sub == nil {
